@@ -53,11 +53,13 @@ def snippets() -> dict[str, str]:
     import splink.internals.completeness as comp
     import splink.internals.unlinkables as unl
     src = inspect.getsource(comp.completeness_data)
-    m = re.search(r'sql = f"""\s*\(select(.*?)\)\s*"""', src, flags=re.S)
+    # one UNION ALL member per column: select * from (select ... group by ... order by ...) as completeness_of_<i>
+    m = re.search(r'sql = f"""\s*(select \* from \(select.*?\) as completeness_of_\{len\(sqls\)\})\s*"""', src, flags=re.S)
     if not m:
         raise Untranslatable("completeness per-column template not found")
-    t = "select" + m.group(1)
+    t = m.group(1)
     t = t.replace("{internal_source_colname}", "src").replace("{quoted_col}", "col").replace("{unquoted_col}", "col")
+    t = t.replace("completeness_of_{len(sqls)}", "completeness_of_i")
     out["completeness"] = norm(t)
     src = inspect.getsource(unl.unlinkables_data)
     parts = re.findall(r'sql = f?"""(.*?)"""', src, flags=re.S)
@@ -81,10 +83,10 @@ def snippets() -> dict[str, str]:
 
 
 # the forms Model/Descriptive.v was written against
-EXPECTED = {'completeness': "select src as source_dataset, 'col' as column_name, count(*) - count(col) as "
-                 'total_null_rows, count(*) as total_rows_inc_nulls, cast(count(col) * 1.0 / count(*) as '
+EXPECTED = {'completeness': "select * from (select src as source_dataset, 'col' as column_name, count(*) - count(col) "
+                 'as total_null_rows, count(*) as total_rows_inc_nulls, cast(count(col) * 1.0 / count(*) as '
                  'float) as completeness from __splink__df_concat_with_source_dataset group by src order by '
-                 'count(*) desc',
+                 'count(*) desc) as completeness_of_i',
  'cvd': "select gamma_a || ',' || gamma_b as gam_concat, (case when gamma_a = -1 then 0 when gamma_a = 0 "
         'then -1 else gamma_a end) + (case when gamma_b = -1 then 0 when gamma_b = 0 then -1 else gamma_b '
         'end) as sum_gam, count(*) as count_rows_in_comparison_vector_group, cast(count(*) as float) / '
